@@ -59,6 +59,10 @@ EVAL_PROGRAMS = {
          ("paths./.get.responses.404.content.application/json.schema.properties.second.type", "number"),
          ("paths./.get.responses.500.content.application/json.schema.properties.first.format", "uri-reference"),
          ("paths./.get.responses.500.content.application/json.schema.properties.second.type", "integer")], 0),
+    "clashing-names-of-different-kinds": (
+        {"main.oal": "let entry k v = { k, 'value v };\nlet tagged k = entry ('tag str) k;\nres /items on get -> <tagged num>;\n"},
+        [("paths./items.get.responses.default.content.application/json.schema.properties.tag.type", "string"),
+         ("paths./items.get.responses.default.content.application/json.schema.properties.value.type", "number")], 0),
     "rec-binder-forwarded-into-a-function-with-the-same-parameter-name": (
         {"main.oal": "let both a r = { 'a a, 'r r };\nlet t = rec a { 'next? a, 'pair both num a };\nres / on get -> <t>;\n"},
         [("paths./.get.responses.default.content.application/json.schema.$ref", "~#/components/schemas/hash-")], 0),
@@ -69,6 +73,9 @@ EVAL_PROGRAMS = {
     "duplicate-declaration-is-an-error": ({"main.oal": "let a = num;\nlet a = str;\nres / on get -> <a>;\n"}, [], 1),
 }
 # the statement puts declarations before imports and built-ins; today they share one scope
+# a declaration written *before* an unqualified import of the same name: either the clash is reported (today) or the
+# declaration wins (the statement's order); the import must never silently replace it
+DECL_BEFORE_IMPORT = {"main.oal": "let item = { 'local str };\nuse \"lib.oal\";\nres / on get -> <item>;\n", "lib.oal": "let item = { 'imported num };\n"}
 SHADOW_OUTER = {
     "declaration-named-like-a-built-in": {"main.oal": "let concat = num;\nres / on get -> <concat>;\n"},
     "declaration-named-like-an-unqualified-import": {"main.oal": 'use "m.oal";\nlet t = num;\nres / on get -> <t>;\n', "m.oal": "let t = str;\n"},
@@ -466,6 +473,7 @@ def check():
     ACTIONS = ("open_declaration", "define_variable", "open_recursion", "close_declaration", "close_recursion")
     order_ok = True
     depth_ok = True
+    imports_first = True
     for p in outs:
         if p.kind not in ("backedge", "return"):
             continue
@@ -479,6 +487,26 @@ def check():
         if flat != sorted(flat) or (idx["import"] and idx["import"][0] != names.index("import")) or \
            (any(idx[k] for k in ("declare_import", "declare_variable", "NodeRef::traverse")) and not idx["import"]):
             order_ok = False
+        # a declaration of the module is declared only once every import has been: the path that reaches
+        # declare_variable has seen the import iterator run dry (and not the other way round for declare_import)
+        if idx["declare_variable"]:
+            pi = [i for i, e in enumerate(calls) if e[1] == "Program::imports"]
+            dry = False
+            if pi:
+                for i, e in enumerate(calls):
+                    if pi[0] < i < idx["declare_variable"][0] and e[1].endswith("Iterator::next") and any(t == calls[pi[0]][3] or ms.show(t).startswith("FilterMap.IntoIterator::into_iter(Program::imports") for a in e[2] for t in ms.subterms(a)):
+                        v0, _ = S.check("resolve: import iterator exhausted", S.pc(p.pc) + [S.i(ms.disc_of(e[3], E)) != 0])
+                        dry = dry or v0 == "unsat"
+                # the havocked loop iterator loses its textual link to Program::imports: accept "an iterator next() == None between the two"
+                if not dry:
+                    for i, e in enumerate(calls):
+                        if pi[0] < i < idx["declare_variable"][0] and e[1].endswith("Iterator::next"):
+                            v0, _ = S.check("resolve: an iterator exhausted before declarations", S.pc(p.pc) + [S.i(ms.disc_of(e[3], E)) != 0])
+                            dry = dry or v0 == "unsat"
+            if not dry:
+                imports_first = False
+        if idx["declare_import"] and idx["declare_variable"] and idx["declare_variable"][0] < idx["declare_import"][0]:
+            imports_first = False
         # nothing opens or closes a scope between the built-ins and the module's own declarations
         if idx["declare_variable"] and idx["import"]:
             between = names[idx["import"][0]:idx["declare_variable"][0]]
@@ -521,6 +549,7 @@ def check():
             roles["none"] += 1
             L.expect_unsat("resolve: a tree event is skipped only if it is none of declaration / variable / rec", cond + [z3.Or(list(want.values()))], on_sat)
     structural("resolve: built-ins are declared first, then imports, then the module's declarations, then the tree is traversed", order_ok)
+    structural("resolve: every import is declared before the first declaration of the module is (a clash is then reported at the declaration, whatever the textual order)", imports_first)
     structural("resolve: built-ins, imports and the module's declarations go into the same outermost scope", depth_ok)
     o.extra["resolve_dispatch_paths"] = roles
     if min(roles.values()) == 0:
@@ -591,6 +620,12 @@ def check():
                 o.known_finding(k.get("what", what))
             else:
                 probs.append(what)
+    r = run_cli(cli, DECL_BEFORE_IMPORT, workdir=os.path.join(rdir, "declaration-before-import"), timeout=30)
+    o.extra.setdefault("outer_scope_collisions", {})["declaration-before-import"] = {"rc": r["rc"]}
+    if crashed(r):
+        probs.append("declaration-before-import: oal-cli dies (exit %s)" % r["rc"])
+    elif r["rc"] == 0 and "imported" in (r["target"] or ""):
+        probs.append("declaration-before-import: `let item = ..; use \"lib.oal\";` - the import silently replaces the module's own declaration of `item` (no error, the imported schema is emitted)")
     if bad:
         if probs:
             o.violation("identifiers do not bind lexically; lemma(s): %s; real binaries: %s" % ("; ".join(bad[:3]), "; ".join(probs[:3])), rdir)
